@@ -27,8 +27,8 @@ pub fn run(prop: &str, tier: Tier, seed: u64) -> Option<PropReport> {
         match replay_engine(&engine, &v["case"]) {
             Some(Ok(Ok(()))) => rep.corpus_ok += 1,
             Some(Ok(Err(m))) => rep.corpus_failures.push((path.display().to_string(), m)),
-            Some(Err(e)) => rep.corpus_failures.push((path.display().to_string(), format!("[harness] {e}"))),
-            None => rep.corpus_failures.push((path.display().to_string(), format!("[harness] unknown engine {engine}"))),
+            Some(Err(e)) => rep.harness_errors.push(format!("corpus file {}: {e}", path.display())),
+            None => rep.harness_errors.push(format!("corpus file {}: unknown engine {engine}", path.display())),
         }
     }
     Some(rep)
